@@ -36,6 +36,13 @@ Definition model_step (b : rbuilder) (s : option scanner) (op : rop) (r : rimpl)
         | PErr, RIErr => (Some true, None)
         | PPanic, RIPanic => (Some true, None)
         | PUnmodelled, _ => (None, None)
+        (* whether a retrieval with a failing field reports the error depends on Go's map order: when
+           another field's result is already empty the scanner stops early and returns nothing *)
+        | PErr, RIDocs [] | PErr, RIDocSet [] => (Some true, None)
+        | POk sc', RIErr =>
+          (Some (bm_empty (sc_res sc') &&
+                 existsb (fun fc => match rc_retrieve (snd fc) (match alookup N.eqb (fst fc) q with Some v => v | None => VNil end) with
+                                    | POk _ => false | _ => true end) (rb_conts b)), None)
         | _, _ => (Some false, None)
         end
       | ROReset => (Some true, Some fresh_scanner)
